@@ -781,6 +781,29 @@ def b_c03(tier):
                 make(badname); check(False, "an illegal name was accepted", container=cname, name=badname)
             except (ValueError, DuplicateName):
                 N[0] += 1
+    # data frames: a second frame under an existing name is refused like every other duplicate
+    fb = f.create_block("framesb", "t"); fb.create_data_frame("df", "t", col_dict={"a": int}, data=[(1,)])
+    for kw in (dict(col_dict={"a": int}, data=[(5,)]), dict(col_dict={"z": float}, data=[(2.0,)])):
+        try:
+            fb.create_data_frame("df", "t", **kw); check(False, "a second data frame under an existing name was accepted", columns=list(kw["col_dict"]))
+        except DuplicateName:
+            N[0] += 1
+        except Exception as e:
+            check(False, "a duplicate data frame name was refused with %s, not with a duplicate-name error" % type(e).__name__)
+        check(len(fb.data_frames) == 1 and list(fb.data_frames["df"].column_names) == ["a"] and fb.data_frames["df"].read_rows([0])[0][0] == 1,
+              "a refused duplicate create_data_frame changed the existing frame")
+    # a legal name that is the id of a SIBLING is accepted by every creator (it is a name nobody carries)
+    sib = {"blocks": (lambda n: f.create_block(n, "t"), f.create_block("sibb", "t")),
+           "sections": (lambda n: f.create_section(n, "t"), f.create_section("sibs", "t")),
+           "arrays": (lambda n: fb.create_data_array(n, "t", data=[1.0]), fb.create_data_array("siba", "t", data=[1.0])),
+           "sources": (lambda n: fb.create_source(n, "t"), fb.create_source("sibsrc", "t")),
+           "subsections": (lambda n: f.sections["sibs"].create_section(n, "t"), f.sections["sibs"].create_section("sibsub", "t"))}
+    for cname, (mk, other_) in sib.items():
+        try:
+            e = mk(other_.id)
+            check(e.name == other_.id and e.id != other_.id, "an entity named after a sibling's id is not a new entity with that name", container=cname)
+        except Exception as ex:
+            check(False, "a legal name equal to a sibling's id was refused", container=cname, error=repr(ex)[:120])
     # a name that IS another member's id (kept-id copies of a block that is named after its id): the name retrieves its own entity
     g2 = newfile("ids.nix"); anon = f.create_block("", "t"); nm = anon.name
     g2.create_block(name="backup", copy_from=anon, keep_copy_id=True); g2.create_block(copy_from=anon, keep_copy_id=True)
@@ -1146,6 +1169,7 @@ def b_c18(tier):
         w = dict(w); w["sections"] = [rec(s) for s in w["sections"]]; return w
 
     def check_upgraded(path, expected, unc, label):
+        mode_rw = True
         try:
             f = nixio.File.open(path, nixio.FileMode.ReadWrite)
         except Exception as e:
@@ -1174,6 +1198,13 @@ def b_c18(tier):
             else:
                 check(prop.uncertainty in (None, 0, 0.0) and (name + ".uncertainty") not in sec.props,
                       "an uncertainty appeared from nowhere", case=label, prop=name)
+            if mode_rw and len(u):
+                try:
+                    keepv = list(prop.values); prop.values = keepv + keepv[:1]
+                    check(list(prop.values) == keepv + keepv[:1], "a converted property does not take another number of values", case=label, prop=name)
+                    prop.values = keepv
+                except Exception as e:
+                    check(False, "a converted property refuses another number of values (not resizable)", case=label, prop=name, error=repr(e)[:120])
             for fld in ("reference", "filename", "encoder", "checksum"):
                 comp = "%s.%s" % (name, fld)
                 if ex:
